@@ -27,6 +27,7 @@ type Tty struct {
 	in      chan []byte
 	drain   chan struct{}
 	readErr error
+	pending []byte
 	started bool
 	closed  bool
 	nwrites int
@@ -117,6 +118,12 @@ func (t *Tty) Read(b []byte) (int, error) {
 			t.mu.Unlock()
 			return 0, e
 		}
+		if len(t.pending) > 0 { // the rest of an injected chunk that was longer than the reader's buffer
+			n := copy(b, t.pending)
+			t.pending = t.pending[n:]
+			t.mu.Unlock()
+			return n, nil
+		}
 		drain := t.drain
 		t.mu.Unlock()
 		select {
@@ -125,6 +132,11 @@ func (t *Tty) Read(b []byte) (int, error) {
 				continue // wake-up for a read error (delivered once, above)
 			}
 			n := copy(b, chunk)
+			if n < len(chunk) {
+				t.mu.Lock()
+				t.pending = append(t.pending, chunk[n:]...)
+				t.mu.Unlock()
+			}
 			return n, nil
 		case <-drain:
 			return 0, nil
@@ -139,7 +151,7 @@ func (t *Tty) Write(b []byte) (int, error) {
 	return len(b), nil
 }
 
-// Inject queues one input chunk (at most 128 bytes are delivered per Read).
+// Inject queues one input chunk; a Read delivers as much of it as its buffer holds, later Reads the rest.
 func (t *Tty) Inject(b []byte) { t.in <- append([]byte{}, b...) }
 
 // FailRead makes the pending or next Read return err.
